@@ -11,6 +11,7 @@ import os
 import textwrap
 from fractions import Fraction as F
 
+import c06rule
 from common import GEN_DIR, frac_of_number, load_barril, sym
 
 CHUNK = 100
@@ -72,6 +73,7 @@ class SymExec:
 
     def __init__(self):
         self.digits = 0
+        self.lits = set()
 
     def const(self, c):
         try:
@@ -79,6 +81,7 @@ class SymExec:
         except ValueError as e:
             raise Untranslatable(str(e))
         self.digits = max(self.digits, sig_digits(c))
+        self.lits.add(fr)
         return RF([fr])
 
     def ev(self, node, env, arg):
@@ -151,7 +154,7 @@ def _func_ast(func):
 
 
 def mobius_of(func, formula):
-    """(p, q, r, s, digits) with func(x) = (p + q x)/(r + s x), by symbolic execution."""
+    """(p, q, r, s, digits, literals) with func(x) = (p + q x)/(r + s x), by symbolic execution."""
     se = SymExec()
     if isinstance(formula, str):
         s = formula.replace("%s", "x").replace("%f", "x")
@@ -183,7 +186,7 @@ def mobius_of(func, formula):
     q = rf.n[1] if len(rf.n) > 1 else F(0)
     r = rf.d[0]
     s = rf.d[1] if len(rf.d) > 1 else F(0)
-    return (p, q, r, s, se.digits)
+    return (p, q, r, s, se.digits, se.lits)
 
 
 def _ann(func):
@@ -228,9 +231,13 @@ def read_units(db):
             for side in ("tobase", "frombase"):
                 func = getattr(info, side)
                 try:
-                    p, q, r, s, dg = mobius_of(func, getattr(info, side + "_str", None))
+                    p, q, r, s, dg, lits = mobius_of(func, getattr(info, side + "_str", None))
                     digits = max(digits, dg)
                     row[side] = (p, q, r, s)
+                    if side == "tobase":
+                        # written relative precision of the row (C06): every distinct literal of the
+                        # executed to-base formula contributes one part in its decimal mantissa
+                        row["prec"] = sum((c06rule.rel_precision(l) for l in sorted(lits)), F(0))
                 except Untranslatable as e:
                     ok = False
                     row[side] = (F(0), F(1), F(1), F(0))
@@ -238,6 +245,7 @@ def read_units(db):
                 row[side + "_hasconv"] = bool(getattr(func, "__has_conversion__", True))
                 row[side + "_ann"] = _ann(func)
             row["ok"] = ok and info.quantity_type == qt
+            row.setdefault("prec", F(0))
             row["digits"] = digits
             rows.append(row)
     return rows
@@ -445,6 +453,16 @@ def emit_all(data):
         info[kind]["cat_chunks"] = list(zip(cnames, cmods))
         dbs_imports += ["Barril.Gen.%sUnits" % cap, "Barril.Gen.%sCats" % cap]
         dbs_defs.append("def %sDb : Db := ⟨%s, %s, legacyList⟩" % (kind, uname, cname))
+    # C06: the compact view of every POSC row (symbol, type, name, slope, written precision, ok) ...
+    crows = ["⟨%d,%d,%d,%s,%s,%s⟩" % (sym(r["sym"]), sym(r["qtype"]), sym(r["name"]),
+                                        _rat(r["tobase"][1] / r["tobase"][2]) if r["tobase"][2] != 0 else "(R 0 1)",
+                                        _rat(r["prec"]), "true" if r["ok"] else "false")
+             for r in data["posc"]["units"]]
+    cnames, cmods_c = em.chunked("poscK", "PoscK", "CRow", crows, imports="import Barril.Model.Compound\n")
+    em.add("PoscCompact.lean", "".join("import Barril.Gen.%s\n" % m for m in cmods_c) +
+           "namespace Barril.Gen\nopen Barril\n/-- compact rows of the default database, same order as `poscUnits` -/\n"
+           "def poscC : List CRow := %s\nend Barril.Gen\n" % " ++ ".join(cnames))
+    c06_chunks = list(zip(cnames, cmods_c))
     em.add("Dbs.lean", "".join("import %s\n" % m for m in dbs_imports) +
            "namespace Barril.Gen\nopen Barril\n" + "\n".join(dbs_defs) + "\nend Barril.Gen\n")
 
@@ -486,6 +504,40 @@ def emit_all(data):
                    "set_option linter.unusedSimpArgs false\nnamespace Barril.Gen\nopen Barril\n"
                    "theorem %s : %s.all (%s) = true := by\n  simp only [%s, List.all_append, List.all_nil, %s, Bool.and_self]\n"
                    "end Barril.Gen\n" % (allname, listname, pred, ", ".join(unfold), ", ".join(thms)))
+    # ... tied to the full rows chunk by chunk, and the C06 table theorem over it
+    if not info["posc"]["alias"]:
+        ucs = info["posc"]["unit_chunks"]
+        core_thms, core_mods, c06_thms, c06_mods = [], [], [], []
+        for (kn, km), (un, um) in zip(c06_chunks, ucs):
+            tn = "%s_core" % kn
+            mod = "ThmCore%s" % km
+            em.add(mod + ".lean",
+                   "import Barril.Gen.%s\nimport Barril.Gen.%s\nset_option maxRecDepth 100000\nnamespace Barril.Gen\nopen Barril\n"
+                   "theorem %s : %s.map CRow.core = %s.map UnitRow.core := by decide +kernel\nend Barril.Gen\n" % (km, um, tn, kn, un))
+            core_thms.append(tn)
+            core_mods.append(mod)
+            tn = "%s_c06" % kn
+            mod = "ThmC06%s" % km
+            em.add(mod + ".lean",
+                   "import Barril.Gen.PoscCompact\nimport Barril.Gen.KnownBad\nset_option maxRecDepth 100000\nnamespace Barril.Gen\nopen Barril\n"
+                   "theorem %s : %s.all (compoundOkOrKnown poscC c06KnownBad) = true := by decide +kernel\nend Barril.Gen\n" % (tn, kn))
+            c06_thms.append(tn)
+            c06_mods.append(mod)
+        em.add("ThmCorePosc.lean",
+               "".join("import Barril.Gen.%s\n" % m for m in core_mods) + "import Barril.Gen.PoscCompact\nimport Barril.Gen.PoscUnits\n"
+               "set_option linter.unusedSimpArgs false\nnamespace Barril.Gen\nopen Barril\n"
+               "/-- the compact table is the default database's unit table, row by row -/\n"
+               "theorem poscC_core : poscC.map CRow.core = poscUnits.map UnitRow.core := by\n"
+               "  simp only [poscC, poscUnits, List.map_append, %s]\nend Barril.Gen\n" % ", ".join(core_thms))
+        hyps = " ".join("(h%d : %s.all P = true)" % (i, kn) for i, (kn, _km) in enumerate(c06_chunks))
+        em.add("ThmC06Posc.lean",
+               "".join("import Barril.Gen.%s\n" % m for m in c06_mods) +
+               "set_option linter.unusedSimpArgs false\nnamespace Barril.Gen\nopen Barril\n"
+               "theorem poscC_all_of_chunks (P : CRow → Bool) %s : poscC.all P = true := by\n"
+               "  simp only [poscC, List.all_append, %s, Bool.and_self]\n"
+               "theorem poscC_all_c06 : poscC.all (compoundOkOrKnown poscC c06KnownBad) = true :=\n"
+               "  poscC_all_of_chunks _ %s\nend Barril.Gen\n" % (
+                   hyps, ", ".join("h%d" % i for i in range(len(c06_chunks))), " ".join(c06_thms)))
     em.add("All.lean", "".join("import Barril.Gen.%s\n" % n[:-5].replace("/", ".") for n in sorted(em.files)
                                 if n != "All.lean"))
     return em
